@@ -18,7 +18,9 @@ pub struct C09Case {
 }
 
 pub fn strategy(thorough: bool) -> BoxedStrategy<C09Case> {
-    let mix = Mix { update: 10, commit: 8, meldrefresh: 6, meld: 3, filecopy: 1, resolve: 2, reopen: 1, timetravel: 0, unstage: 1, stagert: 0, snapshot: 1, refresh: 1, reload: 0, ..Mix::default() };
+    // no raw partial file copies: which files a copy picks depends on block identifiers, which differ between
+    // the fault-free run and the re-runs that are compared with it
+    let mix = Mix { update: 10, commit: 8, meldrefresh: 6, meld: 3, filecopy: 0, resolve: 2, reopen: 1, timetravel: 0, unstage: 1, stagert: 0, snapshot: 1, refresh: 1, reload: 0, ..Mix::default() };
     let len = if thorough { 40 } else { 24 };
     (2u8..=3, gen::history(&mix, len), any::<u64>())
         .prop_map(|(n, ops, pick)| C09Case { hist: Case { n, perms: vec![None; 3], ops, fin: None }, pick })
